@@ -69,7 +69,7 @@ E_IFC, E_OOM, E_DUP, E_OOSS, E_LONG = 5, 7, 10, 14, 15
 MEMFAIL = (E_OOM, E_OOSS)
 
 PROGRAM = [
-    b'1 DEF FNS$(X$)=X$+"!":DEF FNT$(B$)=B$+"?":DEF FNN$(N)=STRING$(N,"*"):END',
+    b'1 DEF FNS$(X$)=X$+"!":DEF FNT$(B$)=B$+"?":DEF FNN$(N)=STRING$(N,"*"):DEF FNU$(P$,Q$)=P$+Q$:END',
     b'10 A$="a":END',
     b'20 A$="bcdef":END',
     b'30 B$="ghijklmno":END',
@@ -79,7 +79,7 @@ PROGRAM = [
     b'70 RSET B$="q":END',
     b'80 C$(1)="rs":END',
 ]
-SETUP = b'A$="":B$="":X=0:N=0:DIM C$(2)'
+SETUP = b'A$="":B$="":P$="":Q$="":X=0:N=0:DIM C$(2)'
 
 # (label, mode, statement / line number)
 OPS = [
@@ -115,12 +115,16 @@ OPS = [
     ('expr-error', 'D', b'A$=B$+C$(1)+CHR$(300)'),
     # a user function without string parameter called while the expression holds a temporary
     ('fn-num-after-temp', 'D', b'A$=LEFT$(B$,2)+FNN$(2)'),
+    # two string arguments that are temporaries: a collection while the second is evaluated
+    ('fn-two-temps', 'D', b'A$=FNU$(B$+"",C$(1)+"")'),
+    # a temporary pending on the outer expression while a bracketed one allocates
+    ('nested-concat', 'D', b'A$=(B$+"")+(C$(1)+B$)'),
 ]
 LABELS = [o[0] for o in OPS]
 QUICK_OPS = [LABELS.index(l) for l in (
     'lit5-code', 'lit9-code', 'append-code', 'midset', 'lset', 'copy', 'concat-elem', 'swap', 'swap-elem',
     'elem-concat', 'erase', 'temps-only', 'fn-param-live', 'too-long', 'copy-elem-gc', 'elem0-chr', 'copy-elem0-gc',
-    'rset', 'expr-error', 'fn-num-after-temp')]
+    'rset', 'expr-error', 'fn-num-after-temp', 'fn-two-temps', 'nested-concat')]
 
 # memory configurations: free bytes of the set-up session
 CONFIGS = {'f12': 12, 'f24': 24, 'f40': 40, 'big': None}
@@ -256,6 +260,14 @@ def ref_step(ref, label):
         c1 = elems()[1]
         need += len(b + c1)
         return E_IFC, (n if n.c is not ref.c else ref), need
+    elif label == 'fn-two-temps':
+        c1 = elems()[1]
+        n.a = b + c1
+        need += 2 * (len(b) + len(c1)) + 2 * len(n.a)
+    elif label == 'nested-concat':
+        c1 = elems()[1]
+        n.a = b + c1 + b
+        need += len(b) + len(c1 + b) + 2 * len(n.a)
     elif label == 'fn-num-after-temp':
         n.a = b[:2] + b'**'
         need = len(b[:2]) + 2 + len(n.a)
